@@ -377,3 +377,7 @@ Theorem C08_dict_is_history_refuted :
     ~ dict_is_history (exec_ops m0 wit_ops) wit_d (r_out wit_r).
 Proof. exact dict_is_history_refuted. Qed.
 Print Assumptions C08_dict_is_history_refuted.
+(* the true form of (b): at every decoder call of a session decoding one linked frame (no stableDst, the caller may
+   overwrite its memory between calls) the last min(dictSize, 64 KB) bytes at dict+dictSize are the end of the
+   history and dictSize >= min(64 KB, |history|).  Stated, not proved. *)
+Definition C08_dict_is_history_full_statement : Prop := dict_is_history_full_statement.
